@@ -250,6 +250,21 @@ CLAIMS['C14'] = (
     'forwarded packages need mopack (broken in this image); n = 3 restricted as stated in the evidence',
     'DESIGN.md §6 C14')
 
+CLAIMS['C15'] = (
+    'exploration',
+    'exhaustive enumeration of installable subsets x install-directory configurations x DESTDIR modes x backends; install/uninstall run for real (doppel) and the resulting file tree compared with a declaration-level model',
+    'All subsets of size <= 2 (quick) / 3 (thorough) of 12 installable kinds (executables incl. in a sub-directory, '
+    'shared/static/versioned libraries, header file, header directory with an include pattern and nested structure, '
+    'man pages with and without gzip, source and built data files with directory=, an executable whose project '
+    'shared library is not itself installed) x {default, each of the seven directory options alone with a space in '
+    'its path, all together} x DESTDIR {unset, configure-time plain/with space, and for Make install-time and '
+    'install-time overriding} x {make, ninja}. install is run with the real doppel; the file tree under DESTDIR + '
+    'directories must equal the model exactly (symlinks of versioned libraries valid, header structure kept, run-time '
+    'dependency closure, nothing outside DESTDIR, source tree untouched, patchelf asked to set the installed library '
+    'directory); uninstall with the same DESTDIR must remove exactly those files.',
+    'stub toolchain (binaries are not ELF; the patchelf request is checked, not its effect); file modes not compared',
+    'DESIGN.md §6 C15')
+
 # --- more claims are appended above this line ---
 NOT_YET = 'check not built yet in this session (see DESIGN.md §10 build order); not claimed until it is'
 NOT_APPLICABLE = {}
